@@ -2287,6 +2287,11 @@ mod tests {
 #[allow(missing_docs)]
 pub mod verif_hooks {
 	use super::*;
+
+	/// counterparty-spendable height of a package (private field)
+	pub fn counterparty_spendable_height(p: &PackageTemplate) -> u32 {
+		p.counterparty_spendable_height
+	}
 	use crate::types::payment::PaymentHash;
 	use crate::util::logger::Record;
 	use bitcoin::hashes::Hash;
